@@ -106,12 +106,15 @@ ACCEPT = {"k": "accept"}
 GARBAGE = [{"k": "garbage", "variant": v} for v in range(6)] + [{"k": "empty"}, {"k": "html"}, {"k": "reset"},
                                                                   {"k": "huge", "bytes": 3000000}]
 MALSIG = [{"k": "malsig", "variant": v} for v in range(6)]
+# the exchange itself breaks: the connection is closed without an answer / what answers is not HTTP at all
+BROKEN = [{"k": "reset"}, {"k": "nothttp"}]
 # reply classes on the add_appointment endpoint, one representative each (the first of each list is the canonical one)
 ADD_CLASS = {
     "accept": [ACCEPT],
     "sub_error": [{"k": "sub_error"}],
     "reject": [{"k": "reject", "code": 9}, {"k": "reject", "code": 1}],
     "garbage": GARBAGE,
+    "broken": BROKEN,
     "badsig": [{"k": "badsig"}],
     "malsig": MALSIG,
 }
@@ -126,7 +129,7 @@ def fam_notify_path(tag, classes):
                 s = Sc("%s-np-%s%d-%dt" % (tag, cls, i, nt), nt, fam="notify_path", covers=["notify:" + cls])
                 s.regall().mode("t1", beh).notify("l1").probe()
                 s.mode("t1", ACCEPT).notify("l2")
-                if cls in ("sub_error", "garbage", "malsig"):
+                if cls in ("sub_error", "garbage", "malsig", "broken"):
                     s.delivered("t1")
                 s.probe()
                 out.append(s.done())
@@ -281,6 +284,33 @@ def fam_kill(tag, rng, n_random):
     return out
 
 
+def fam_restart(tag):
+    """a restart reloads every tower from disk for what it is: misbehaving only with its own proof, temporarily
+    unreachable only with its own pending data"""
+    out = []
+    # t1 is caught with a bad signature for l1, which t2 (t3) accepts / keeps pending / rejects
+    for other in ("accept", "pending", "reject"):
+        s = Sc("%s-restart-misb-%s" % (tag, other), 2, fam="restart", covers=["restart@misbehaving+" + other])
+        s.regall().mode("t1", {"k": "badsig"})
+        if other == "pending":
+            s.down("t2")
+        if other == "reject":
+            s.mode("t2", {"k": "reject"})
+        s.notify("l1").probe().kill().restart().probe()
+        if other == "pending":
+            s.up("t2")
+        s.mode("t2", ACCEPT).notify("l2")
+        if other == "pending":
+            s.delivered("t2")
+        s.probe().restart().probe().notify("l3").probe()
+        out.append(s.done())
+    # one tower with pending data, the other one without: only the first one is retried after the restart
+    s = Sc("%s-restart-pending-one" % tag, 2, fam="restart", covers=["restart@pending"])
+    s.regall().down("t1").notify("l1").notify("l2").restart().probe().notify("l3").up("t1").delivered("t1").probe()
+    out.append(s.done())
+    return out
+
+
 def fam_duplicates(tag):
     out = []
     for what, pre in (("accepted", []), ("pending", ["down"]), ("invalid", ["reject"])):
@@ -313,6 +343,17 @@ def fam_abandon(tag):
             s.down("t1")
         s.notify("l3").probe().abandon("t1").probe().kill().restart().probe()
         s.up("t2").delivered("t2").notify("l4").probe()
+        out.append(s.done())
+    # abandontower while a request to that tower is in flight; the request then fails in a way that asks for a retry
+    for late in ("garbage", "reset", "sub_error", "malsig"):
+        s = Sc("%s-ab-inflight-%s" % (tag, late), 2, fam="abandon", covers=["abandon@inflight"])
+        s.regall().mode("t1", {"k": "accept", "hold": True}).notify("l1", wait=False)
+        s.step(op="wait_held", t="t1", timeout_ms=4000).abandon("t1")
+        if late == "refused":
+            s.step(op="release", t="t1", beh={"k": "reset"})
+        else:
+            s.step(op="release", t="t1", beh=dict((BROKEN[0] if late == "reset" else ADD_CLASS[late][0])))
+        s.mode("t1", ACCEPT).wait_for("l1").sleep(1600).probe().notify("l2").probe().reg("t1").notify("l3").probe()
         out.append(s.done())
     # abandoning a tower that is being retried; abandoning an unknown tower; registering again afterwards
     s = Sc("%s-ab-retried" % tag, 2, fam="abandon", covers=["abandon@running"])
@@ -367,6 +408,11 @@ def fam_register(tag):
         if name in ("ok", "garbage", "error", "empty", "strnum", "nosig"):
             s.delivered("t1").probe()
         out.append(s.done())
+    # renewal through another address of the same tower: reported and stored alike, also after a restart
+    s = Sc("%s-reg-other-address" % tag, 1, fam="register", covers=["renew:other_address"])
+    s.reg("t1").notify("l1").step(op="register", t="t1", alt=True).probe().notify("l2").restart().probe().notify("l3")
+    s.reg("t1").probe()
+    out.append(s.done())
     # a tower that is down when the user registers again
     s = Sc("%s-reg-down" % tag, 1, fam="register", covers=["register:refused"])
     s.reg("t1").down("t1").reg("t1").probe().notify("l1").up("t1").delivered("t1").probe()
@@ -1077,14 +1123,18 @@ def run_check(pid, tier, replay, scenarios_fn, rule):
     val_wall = time.time() - t1
     # scenarios whose timing assumptions were not met are run once more, alone; still inconclusive = tool error
     inconclusive = [n for n in names if res[n]["inconclusive"] or any(t[1] == "INCONCLUSIVE" for t in tags_of[n])]
-    if inconclusive:
-        log("inconclusive scenarios, run again one by one: %s" % inconclusive)
+    for attempt in range(3):
+        if not inconclusive:
+            break
+        log("inconclusive scenarios (attempt %d), run again a few at a time: %s" % (attempt + 1, inconclusive))
         res2, _ = run_scenarios([by_name[n] for n in inconclusive], wd, client, jobs=2)
         tags2, _ = validate_many(inconclusive, sdir, wd)
         for n in inconclusive:
             res[n] = res2[n]
             tags_of[n] = tags2[n]
-        still = [n for n in inconclusive if res[n]["inconclusive"] or any(t[1] == "INCONCLUSIVE" for t in tags_of[n])]
+        inconclusive = [n for n in inconclusive if res[n]["inconclusive"] or any(t[1] == "INCONCLUSIVE" for t in tags_of[n])]
+    if inconclusive:
+        still = inconclusive
         if still:
             raise ToolError("timing assumptions not met (machine overloaded?) in scenarios %s: %s" %
                             (still, [res[n]["inconclusive"] for n in still][:3]))
